@@ -18,12 +18,34 @@ pub fn units(tier: &str, _seed: u64) -> Vec<String> {
         v.push(unit(&[("shape", s), ("n", "1"), ("fs", "PEN"), ("k", "sym"), ("a", "sym")]));
     }
     v.push(unit(&[("shape", shapes[1]), ("n", "2"), ("fs", "PEN"), ("k", "sym"), ("a", "sym"), ("ord", "rev")]));
+    // free text (comments, metadata keys and values, factor comments): a catalogue of strings built from the
+    // characters that matter to XML, each alone, doubled, at either end, in both orders, already-escaped
+    // look-alikes, non-ASCII, control characters; strings are *shape* (enumerated), not solver variables
+    for i in 0..TEXTS.len() {
+        v.push(unit(&[("shape", "U:CAL:GASNATURAL;P:EL_INSITU;U:ILU:ELECTRICIDAD"), ("n", "1"), ("fs", "PEN"), ("k", "0"), ("a", "1"), ("txt", &i.to_string())]));
+    }
     if tier == "thorough" {
         for s in shapes {
             v.push(unit(&[("shape", s), ("n", "2"), ("fs", "SYM"), ("k", "sym"), ("a", "sym"), ("ord", "hash:4")]));
         }
     }
     v
+}
+
+/// Free-text catalogue of the `txt=` units.
+pub const TEXTS: &[&str] = &[
+    "&", "<", ">", "\"", "'", "\\", "&&", "<<", "a & b", "&a", "a&", "x<y", "y>x", "<&>", ">&<", "&<", "<&", "&lt;", "&amp;", "&#38;",
+    "]]>", "-->", "<!--", "<![CDATA[x]]>", "</Comentario>", "\"q\" & 'r'", "\\&", "&\\", "\"&", "é&ñ <€>", "a\tb", "a\u{1}b", "\u{0}", "\u{1b}[0m",
+    "a\u{7f}b", "\u{fffe}", "\u{ffff}&", "plain text",
+];
+
+/// XML 1.0 `Char` production
+fn xml_char(c: char) -> bool {
+    matches!(c, '\t' | '\n' | '\r' | '\u{20}'..='\u{D7FF}' | '\u{E000}'..='\u{FFFD}' | '\u{10000}'..='\u{10FFFF}')
+}
+
+fn xml_unescape(s: &str) -> String {
+    s.replace("&lt;", "<").replace("&gt;", ">").replace("&quot;", "\"").replace("&apos;", "'").replace("&amp;", "&")
 }
 
 /// numbers after `key` in `line`, in order (tokens are placeholders or decimals)
@@ -52,6 +74,9 @@ fn line_with<'a>(text: &'a str, prefix: &str) -> Option<&'a str> {
 /// every `&` starts one of the five predefined entities, no raw `<` in text.
 fn xml_well_formed(x: &str) -> std::result::Result<(), String> {
     let b: Vec<char> = x.chars().collect();
+    if let Some(c) = b.iter().find(|c| !xml_char(**c)) {
+        return Err(format!("character U+{:04X} is not allowed in XML 1.0", *c as u32));
+    }
     let mut stack: Vec<String> = vec![];
     let mut i = 0;
     while i < b.len() {
@@ -103,7 +128,7 @@ fn xml_well_formed(x: &str) -> std::result::Result<(), String> {
                 }
                 i += 1;
             }
-            '>' => return Err(format!("raw '>' in text at {}", i)),
+            '>' if i >= 2 && b[i - 1] == ']' && b[i - 2] == ']' => return Err(format!("']]>' in text at {}", i)),
             _ => i += 1,
         }
     }
@@ -129,11 +154,33 @@ fn between<'a>(x: &'a str, open: &str, close: &str) -> Vec<&'a str> {
     v
 }
 
+fn set_comment(c: &mut Energy, text: &str) {
+    match c {
+        Energy::Used(e) => e.comment = text.to_string(),
+        Energy::Prod(e) => e.comment = text.to_string(),
+        Energy::Aux(e) => e.comment = text.to_string(),
+        Energy::Out(e) => e.comment = text.to_string(),
+    }
+}
+
 pub fn scenario(u: &Unit) -> String {
-    let e = match prepare(u) {
+    let mut e = match prepare(u) {
         Ok(e) => e,
         Err(s) => return s,
     };
+    // free text through the API (the text format cannot carry every string: line breaks, '#' in keys)
+    let text: Option<&str> = u.get("txt").parse::<usize>().ok().map(|i| TEXTS[i]);
+    if let Some(t) = text {
+        for c in e.comps.data.iter_mut().take(2) {
+            set_comment(c, t);
+        }
+        e.comps.set_meta("Descripcion", t);
+        e.comps.set_meta(t, "valor");
+        e.fp.set_meta("Fuente", t);
+        if let Some(w) = e.fp.wdata.first_mut() {
+            w.comment = t.to_string();
+        }
+    }
     let ep = match evaluate(&e) {
         Ok(x) => x,
         Err(s) => return s,
@@ -219,10 +266,27 @@ pub fn scenario(u: &Unit) -> String {
             ob(&format!("xml.values[{}][{}]", i, j), a.close_dec(*b, 2, 1.0));
         }
     }
-    // comments survive escaped
-    for c in ep.components.data.iter().filter(|c| !c.comment().is_empty()) {
-        let esc = c.comment().replace('&', "&amp;").replace('<', "&lt;").replace('>', "&gt;");
-        ob("xml.comment-escaped", if xml.contains(&esc[..esc.len().min(12)]) { t() } else { f() });
+    // comments and metadata survive: the character data of every <Comentario>, <Clave>, <Valor> element, with
+    // the predefined entities resolved, is the declared text (characters XML 1.0 cannot carry may be dropped;
+    // the implementation writes a backslash as &apos;, which is well formed and accepted here)
+    let same_text = |got: &str, want: &str| {
+        let filtered: String = want.chars().filter(|c| xml_char(*c)).collect();
+        let got = xml_unescape(got);
+        got == want || got == filtered || got == want.replace('\\', "'") || got == filtered.replace('\\', "'")
+    };
+    let comments = between(&xml, "<Comentario>", "</Comentario>");
+    for (i, c) in ep.components.data.iter().enumerate().filter(|(_, c)| !c.comment().is_empty()) {
+        ob(&format!("xml.comment-kept[{}]", i), if comments.iter().any(|g| same_text(g, c.comment())) { t() } else { f() });
+    }
+    for (i, w) in ep.wfactors.wdata.iter().enumerate().filter(|(_, w)| !w.comment.is_empty()) {
+        ob(&format!("xml.factor-comment-kept[{}]", i), if comments.iter().any(|g| same_text(g, &w.comment)) { t() } else { f() });
+    }
+    let (keys, vals) = (between(&xml, "<Clave>", "</Clave>"), between(&xml, "<Valor>", "</Valor>"));
+    let metas: Vec<&Meta> = ep.wfactors.wmeta.iter().chain(ep.components.meta.iter()).collect();
+    ob("xml.metadata.count", if keys.len() == metas.len() && vals.len() == metas.len() { t() } else { f() });
+    for (i, m) in metas.iter().enumerate() {
+        let found = keys.iter().zip(vals.iter()).any(|(k_, v_)| same_text(k_, &m.key) && same_text(v_, &m.value));
+        ob(&format!("xml.metadata.kept[{}]", i), if found { t() } else { f() });
     }
     // ---------------- JSON: valid, and reads back into an equal result
     match json {
@@ -240,6 +304,13 @@ pub fn scenario(u: &Unit) -> String {
                     }
                 }
                 ob("json.components", if back.components.data.len() == ep.components.data.len() && back.wfactors.wdata.len() == ep.wfactors.wdata.len() { t() } else { f() });
+                let same_comments = back.components.data.iter().zip(ep.components.data.iter()).all(|(a, b)| a.comment() == b.comment())
+                    && back.wfactors.wdata.iter().zip(ep.wfactors.wdata.iter()).all(|(a, b)| a.comment == b.comment);
+                let same_meta = back.components.meta.len() == ep.components.meta.len()
+                    && back.components.meta.iter().zip(ep.components.meta.iter()).all(|(a, b)| a.key == b.key && a.value == b.value)
+                    && back.wfactors.wmeta.len() == ep.wfactors.wmeta.len()
+                    && back.wfactors.wmeta.iter().zip(ep.wfactors.wmeta.iter()).all(|(a, b)| a.key == b.key && a.value == b.value);
+                ob("json.text-kept", if same_comments && same_meta { t() } else { f() });
             }
             Err(_) => ob("json.reads-back", f()),
         },
